@@ -69,6 +69,10 @@ func AccountID(i int) string {
 	return encryption.Hash(fmt.Sprintf("verif client %d", i))
 }
 
+// StrictIDs probes the real encryption.IsHash: does it refuse a 64-digit hex string that is not
+// in lower case?  (An input of the model: cfg_strict_ids.)
+func StrictIDs() bool { return !encryption.IsHash(strings.ToUpper(encryption.Hash("verif probe"))) }
+
 func TxnHash(i int) string { return encryption.Hash(fmt.Sprintf("verif txn %d", i)) }
 func NodeKey(i int) string { return fmt.Sprintf("verif:node:%d", i) }
 
